@@ -76,6 +76,7 @@ theorem generated_proc_sem_good_c04 : Proc.good procSem := by decide
 
 
 
+
 -- BEGIN PINS (written by bin/mkpins; do not edit by hand)
 /-- the Go functions this property's model and obligations were written against have exactly the
 pinned skeletons (SHA-256 prefix of the atom list) -/
